@@ -13,24 +13,12 @@ theorem uncompress_piv_bounds {o : Bytes} {u : Unprot} (h : uncompress o = some 
     split at h; · cases h
     split at h; · cases h
     split at h; · cases h
+    split at h; · cases h
     rename_i h5 hlen
-    have key : ∀ (pv : Option Bytes),
-        pv = (if fb % 8 = 0 then none else some (tail.take (fb % 8))) → pv = some p →
-        1 ≤ p.length ∧ p.length ≤ 5 := by
-      intro pv e1 e2
-      rw [e1] at e2
-      split at e2
-      · cases e2
-      · cases e2
-        simp only [List.length_take]
-        omega
-    split at h
-    · split at h
-      · cases h
-      · split at h
-        · cases h
-        · cases h; exact key _ rfl hp
-    · cases h; exact key _ rfl hp
+    repeat' split at h
+    all_goals (try (cases h))
+    all_goals (try (cases hp))
+    all_goals (simp only [List.length_take]; omega)
 
 /-- `recvParams` from its ingredients -/
 theorem recvParams_of_fields {tb : Nat} {B : Ctx} {rid : Option ReqId} {o : Msg}
@@ -43,7 +31,22 @@ theorem recvParams_of_fields {tb : Nat} {B : Ctx} {rid : Option ReqId} {o : Msg}
     recvParams tb B rid o =
       .ok { nonce, aad := aad B.algValue s.rid.kid s.rid.piv, rid := s.rid, seqno := s.seqno } := by
   have hl : ¬ o.payload.length < tb + 1 := by omega
+  have hreq : isResponse o.code = false → ¬o.code = 2 → o.code = 5 := by
+    intro hr h2
+    rw [hr] at hcode
+    have : rid = none := by cases rid <;> simp_all
+    subst this
+    cases hp : u.piv with
+    | none => simp [selectPiv, hp] at hsel
+    | some piv =>
+      simp only [selectPiv, hp] at hsel
+      split at hsel
+      · rename_i hc; rcases hc with hc | hc
+        · exact absurd hc h2
+        · exact hc
+      · cases hsel
   simp [recvParams, hcode, hopt, hu, hids, hsel, hg, hl, hn]
+  exact hreq
 
 /-- … and back -/
 theorem recvParams_ok_inv {tb : Nat} {B : Ctx} {rid : Option ReqId} {o : Msg} {rp : RecvParams}
@@ -56,6 +59,7 @@ theorem recvParams_ok_inv {tb : Nat} {B : Ctx} {rid : Option ReqId} {o : Msg} {r
   unfold recvParams at h
   split at h; · cases h
   rename_i hcode
+  split at h; · cases h
   split at h; · cases h
   rename_i option hopt
   split at h; · cases h
@@ -80,17 +84,19 @@ theorem recvParams_ok_inv {tb : Nat} {B : Ctx} {rid : Option ReqId} {o : Msg} {r
 theorem recvParams_error_cases {tb : Nat} {B : Ctx} {rid : Option ReqId} {o : Msg} {e : Err}
     (h : recvParams tb B rid o = .error e) :
     e.isProtection = true ∨
-    (e = .outOfModel ∧ rid.isSome ≠ isResponse o.code) ∨
     (e = .notProtected ∧ findOpt 9 o.opts = none) ∨
-    (e = .valueError ∧ rid = none ∧ ¬ (o.code = 2 ∨ o.code = 5)) ∨
     (e = .assertion ∧ ∃ option u s, findOpt 9 o.opts = some option ∧ uncompress option = some u ∧
         selectPiv B rid o.code u = .ok s ∧
         constructNonce B.ivBytes B.commonIv s.piv s.gen = none) := by
   unfold recvParams at h
   split at h
-  · rename_i hcode; cases h; right; left; exact ⟨rfl, by simpa using hcode⟩
+  · cases h; left; rfl
+  rename_i hcode
   split at h
-  · rename_i hopt; cases h; right; right; left; exact ⟨rfl, hopt⟩
+  · cases h; left; rfl
+  rename_i hreq
+  split at h
+  · rename_i hopt; cases h; right; left; exact ⟨rfl, hopt⟩
   rename_i option hopt
   split at h
   · cases h; left; rfl
@@ -105,16 +111,26 @@ theorem recvParams_error_cases {tb : Nat} {B : Ctx} {rid : Option ReqId} {o : Ms
     · cases hsel
     · cases hsel; left; rfl
     · cases hsel
-    · split at hsel
+    · rename_i hrid
+      split at hsel
       · cases hsel
-      · rename_i hc; cases hsel; right; right; right; left; exact ⟨rfl, rfl, hc⟩
+      · rename_i hc
+        -- not reachable: the request code was checked before
+        exfalso
+        have hr : isResponse o.code = false := by
+          cases hr : isResponse o.code with
+          | false => rfl
+          | true => simp [hr] at hcode
+        have h2 : ¬ o.code = 2 := fun h => hc (Or.inl h)
+        have h5 : ¬ o.code = 5 := fun h => hc (Or.inr h)
+        simp [hr, h2, h5] at hreq
   rename_i s hsel
   split at h
   · cases h; left; rfl
   split at h
   · cases h; left; rfl
   split at h
-  · rename_i hn; cases h; right; right; right; right; exact ⟨rfl, option, u, s, hopt, hu, hsel, hn⟩
+  · rename_i hn; cases h; right; right; exact ⟨rfl, option, u, s, hopt, hu, hsel, hn⟩
   · cases h
 
 /-- what `selectPiv` selects is admissible for the nonce -/
@@ -135,18 +151,15 @@ theorem selectPiv_bounds {B : Ctx} {rid : Option ReqId} {code : Nat} {o : Bytes}
     · cases hs; exact ⟨hB.rid, (hp piv hpiv).2, hB.rid, (hp piv hpiv).2⟩
     · cases hs
 
-/-- with an admissible context and request identifiers, a present OSCORE option and a
-POST/FETCH request (or a response), every failure before decryption is a protection error -/
+/-- with an admissible context and request identifiers and a present OSCORE option, every failure
+before decryption is a protection error — whatever the outer code is -/
 theorem recvParams_error_isProtection {tb : Nat} {B : Ctx} {rid : Option ReqId} {o : Msg} {e : Err}
     (hB : B.wf) (hrid : ∀ r, rid = some r → r.wfFor B)
-    (hcode : rid.isSome = isResponse o.code) (hopt : (findOpt 9 o.opts).isSome = true)
-    (hc : rid = none → o.code = 2 ∨ o.code = 5)
+    (hopt : (findOpt 9 o.opts).isSome = true)
     (h : recvParams tb B rid o = .error e) : e.isProtection = true := by
-  rcases recvParams_error_cases h with h | ⟨_, h⟩ | ⟨_, h⟩ | ⟨_, h1, h2⟩ | ⟨_, option, u, s, _, hu, hs, hn⟩
+  rcases recvParams_error_cases h with h | ⟨_, h⟩ | ⟨_, option, u, s, _, hu, hs, hn⟩
   · exact h
-  · exact absurd hcode h
   · rw [h] at hopt; cases hopt
-  · exact absurd (hc h1) h2
   · obtain ⟨b1, b2, _⟩ := selectPiv_bounds hB hrid hu hs
     obtain ⟨n, hn'⟩ := constructNonce_isSome (civ := B.commonIv) hB.ivLo hB.civ b1 b2
     rw [hn] at hn'; cases hn'
@@ -186,19 +199,18 @@ theorem unprotect_ok_inv {E : AEAD} {B : Ctx} {rid : Option ReqId} {o : Msg} {u 
 
 /-- **core of all tamper clauses.**  If the payload is an honest ciphertext made under
 `(k, n, a)` and the recipient ends up using a different key, nonce or AAD, `unprotect` fails with
-a protection error. -/
+a protection error — whatever the outer code of the message is. -/
 theorem unprotect_rejects {E : AEAD} {B : Ctx} {rid : Option ReqId} {o : Msg}
     {k n a pt : Bytes}
     (hB : B.wf) (hrid : ∀ r, rid = some r → r.wfFor B)
-    (hcode : rid.isSome = isResponse o.code) (hopt : (findOpt 9 o.opts).isSome = true)
-    (hc : rid = none → o.code = 2 ∨ o.code = 5)
+    (hopt : (findOpt 9 o.opts).isSome = true)
     (hpay : o.payload = E.enc k n a pt)
     (hdiff : ∀ rp, recvParams E.tagBytes B rid o = .ok rp →
       ¬ (k = B.recipientKey ∧ n = rp.nonce ∧ a = rp.aad)) :
     ∃ e, unprotect E B rid o = .error e ∧ e.isProtection = true := by
   cases hr : recvParams E.tagBytes B rid o with
   | error e =>
-    exact ⟨e, unprotect_of_recv_error hr, recvParams_error_isProtection hB hrid hcode hopt hc hr⟩
+    exact ⟨e, unprotect_of_recv_error hr, recvParams_error_isProtection hB hrid hopt hr⟩
   | ok rp =>
     refine ⟨.protectionInvalid, unprotect_of_dec_none hr ?_, rfl⟩
     rw [hpay]
